@@ -320,7 +320,7 @@ void verif_run(verif::Args const& a, verif::Evidence& ev)
               "neighbours, within truncation distance of exact bilinear, exact at integer points. resample: identity/translation/scale/rotation/composed maps, destination 0..7 -> every destination pixel equals sample() at the mapped "
               "point applied to its previous content; resize_view to the same size is the identity. affine: products, associativity, factories, left-to-right composition on points, inverse for |det| >= 0.25, iround/ifloor/iceil. "
               "non-trivial (sample): the point is inside per the rule of its sampler; distinct = all keys but the content seed.";
-    int n = th ? 600000 : 40000;
+    int n = th ? 1500000 : 40000;
     verif::rc_search(ev, a, "sample", n, 60, gen_sample, run_sample, [](Case const& c) {
         double x = coord(c.get("xsel"), c.get("xfine"), c.get("w")), y = coord(c.get("ysel"), c.get("yfine"), c.get("h"));
         return x >= -1 && y >= -1 && x < static_cast<double>(c.get("w")) && y < static_cast<double>(c.get("h"));
